@@ -150,7 +150,10 @@ def monitor(case, obs):
         v.append(('late-completion/issued-before-open', what + ' [issued before the client finished opening]'))
       else:
         v.append(('late-completion', what))
-    for d in done:
+    # reply identity is only meaningful against peers that keep the mux contract (a scripted 'bogus' peer answers on
+    # a tag of its own choosing, which may belong to another call: adversarial peers are C11's subject)
+    adversarial = any(a.get('act') == 'bogus' for ep in spec['endpoints'] for a in (ep.get('plan') or {}).values())
+    for d in ([] if adversarial else done):
       arg = obs.get('args', {}).get(cid)
       if d['kind'] == 'value' and arg is not None and d['value'] != 'R:' + arg:
         v.append(('wrong-reply', 'call %s with argument %r completed with %r, which is not the reply to that call' % (cid, arg, d['value'])))
